@@ -342,6 +342,29 @@ pub mod verif_hooks {
                 .map(CurveH)
                 .map_err(|e| e.to_string())
         }
+        /// `Curve.__new__(*self.__getnewargs__())`: the object pickle creates before `__setstate__`.
+        pub fn renew(&self) -> Result<Self, String> {
+            let (nodes, interpolator, ad, id, convention, modifier, calendar, index_base) =
+                self.0.__getnewargs__().map_err(|e| e.to_string())?;
+            Curve::new_py(
+                nodes,
+                interpolator,
+                ad,
+                id,
+                convention,
+                modifier,
+                calendar,
+                index_base,
+            )
+            .map(CurveH)
+            .map_err(|e| e.to_string())
+        }
+        pub fn convention(&self) -> Convention {
+            self.0.convention()
+        }
+        pub fn modifier(&self) -> Modifier {
+            self.0.modifier()
+        }
         /// The bytes `__getstate__` hands to pickle.
         pub fn getstate(&self) -> Vec<u8> {
             serialize(&self.0).unwrap()
